@@ -152,3 +152,20 @@ Theorem C11_rendered_metadata_read_back : forall fs body,
   parse_flat (render fs body) = select_fields (map norm_field fs).
 Proof. exact rendered_metadata_read_back. Qed.
 Print Assumptions C11_rendered_metadata_read_back.
+
+(* extract_metadata on a wheel depends on the archive's content NOW: in any history of file
+   writes/replacements and reads, the last read of a path answers from the archive most
+   recently written there (nothing is remembered from earlier reads of that path). *)
+Theorem C11_read_sees_current_content : forall vok rok st pre p a mid,
+  forallb (fun o => negb (writes_to p o)) mid = true ->
+  exists front,
+    run_ops vok rok st (pre ++ WriteFile p a :: mid ++ [ReadWheel p])%list =
+    (front ++ [Answer (extract_whl vok rok p a)])%list.
+Proof. exact read_sees_current_content. Qed.
+Print Assumptions C11_read_sees_current_content.
+
+Theorem C11_read_history_independent : forall vok rok st1 st2 ops1 ops2 p,
+  lookup_file p (fs_after st1 ops1) = lookup_file p (fs_after st2 ops2) ->
+  run_ops vok rok (fs_after st1 ops1) [ReadWheel p] = run_ops vok rok (fs_after st2 ops2) [ReadWheel p].
+Proof. exact read_history_independent. Qed.
+Print Assumptions C11_read_history_independent.
